@@ -72,15 +72,19 @@ class ModeAggregator(Aggregator):
         # Mode of the ensemble (n_samples, ...)
         y_mode_models = self._np.argmax(y_proba_models, axis=-1)
 
-        weighted_counts = self._np.zeros_like(y_proba_models, dtype=np.float64).sum(axis=0)
         eye_arr = np.eye(num_classes, dtype=np.float64)
+        # One-hot modes of the predictors; a predictor does not vote where its prediction is
+        # masked (the argmax of a masked row is an arbitrary fill index)
+        votes = eye_arr[y_mode_models]
+        if is_masked:
+            votes = np.ma.array(votes, mask=np.ma.getmaskarray(y_proba_models))
         # Weighted average of the one-hot modes of the predictors: the weights are normalised
         # so that the counts of each sample sum to 1 whatever the scale of ``weights``
-        weighted_counts += np.average(eye_arr[y_mode_models], weights=weights, axis=0)
+        weighted_counts = self._np.average(votes, weights=weights, axis=0)
 
         y_mode_ensemble = weighted_counts.argmax(axis=-1)
         if is_masked:
-            mask = weighted_counts.sum(axis=-1).mask
+            mask = np.ma.getmaskarray(weighted_counts).all(axis=-1)
             y_mode_ensemble = self._np.array(y_mode_ensemble, mask=mask)
 
         if not self.with_uncertainty:
